@@ -481,13 +481,64 @@ def run(rep, tier):
     f = facts.load("default")
     rep.rule("R-MAT-REPINV", "every Matrix struct literal built in matrix/ has data.len() == 2 (Identity) / n*m (Full) / (ml+mu+1)*m (Banded), symbolically, for square matrices")
     rep.rule("R-BAND-MAP", "Index and IndexMut address the same data offset (i-j+mu)*m + j under the same in-band predicate")
+    rep.rule("R-BAND-DENSIFY", "every loop over the compact band rows in add/sub/component ops maps row r, column j to the dense entry with i - j = r - mu (inverse of the Index map)")
     rep.rule("R-IDX-DIVERGE", "in index_mut the Identity arm and the out-of-band branch cannot return normally")
     rep.rule("R-MACRO-PATHS", "every $crate path in the exported matrix macros resolves to an item of the crate")
     rep.rule("R-MACRO-WITNESS", "each documented macro constructor form type-checks from outside the crate (cargo check of a witness crate; nothing is executed)")
     r_mat_repinv(rep, f)
     r_band_map(rep, f)
+    r_band_densify(rep, f)
     r_idx_diverge(rep, f)
     r_macro_paths(rep, f)
     r_macro_witness(rep, f)
     rep.explanation = ("Structural: representation invariants of every constructor / operator result (symbolic lengths), agreement of the read and write index maps, divergence of illegal writes, "
                        "and compile witnesses for the macro constructors. Not decided: entrywise equality of every operator with a dense model over all sizes (an enumeration of executions).")
+
+
+def r_band_densify(rep, f):
+    """every loop that walks the compact band storage (row r of (ml+mu+1) rows, column j) maps it to the dense entry
+    (i, j) with i - j = r - mu, the inverse of the Index map (row = i - j + mu)"""
+    n = 0
+    for b in matrix_fns(f):
+        fn = b["def"]
+        short = fn.replace("matrix::", "")
+        # Banded patterns in this function: binding id of `ml` and `mu`
+        pats = []
+        tast.walk(b, lambda nd, ps: pats.append(nd) if nd.get("k") == "PStruct" and (nd.get("def") or "") == STO + "Banded" else None)
+        for lp, parents in tast.find_with_parents(b["body"], lambda z: z.get("k") == "For" and z["iter"].get("k") == "Struct" and z["iter"].get("def") == "std::ops::Range"):
+            rng = {x["name"]: x["e"] for x in lp["iter"]["fields"]}
+            end = rng.get("end")
+            if end is not None and end.get("k") == "Path" and end.get("res") == "local":
+                le = tast.find(b["body"], lambda z: z.get("k") == "Let" and z["pat"].get("id") == end.get("id") and z.get("init") is not None)
+                if le:
+                    end = le[0]["init"]
+            if end is None or not tast.contains(end, lambda q: q.get("k") == "Lit" and str(q.get("v")) == "1"):
+                continue
+            ids = [p["id"] for p in tast.find(end, lambda q: q.get("k") == "Path" and q.get("res") == "local")]
+            if len(ids) != 2:
+                continue
+            mu_id = ml_id = None
+            for ps in pats:
+                fl = {x["name"]: x["pat"] for x in ps.get("fields", [])}
+                bid = {k: (v.get("id") if v.get("k") == "PBind" else (v["pat"].get("id") if v.get("k") in ("PRef", "PDeref") else None)) for k, v in fl.items()}
+                if set(ids) == {bid.get("ml"), bid.get("mu")}:
+                    mu_id, ml_id = bid["mu"], bid["ml"]
+            if mu_id is None:
+                continue
+            rid = lp["pat"].get("id")
+            lets = tast.find(lp["body"], lambda z: z.get("k") == "Let" and z.get("init") is not None and z["init"].get("k") == "Binary" and z["init"]["op"] == "Sub"
+                             and tast.contains(z["init"]["l"], lambda q: q.get("k") == "Path" and q.get("id") == rid))
+            if not lets:
+                continue
+            n += 1
+            sub = lets[0]["init"]["r"]
+            used = [p["id"] for p in tast.find(sub, lambda q: q.get("k") == "Path" and q.get("res") == "local")]
+            key = "R-BAND-DENSIFY:%s:site%d" % (short, n)
+            if used == [mu_id]:
+                rep.ok("R-BAND-DENSIFY", key, "i - j = r - mu")
+            else:
+                nm = tast.render(sub)
+                rep.violation("R-BAND-DENSIFY", key, "compact band row r is mapped to the diagonal i - j = r - (%s); the storage convention (row = i - j + mu) requires r - mu: "
+                              "entries land on the wrong diagonals when ml != mu" % nm, lets[0].get("sp"))
+    if n < 8:
+        rep.inconc("R-BAND-DENSIFY", "R-BAND-DENSIFY:floor", "only %d band-walking loops found (expected 8)" % n)
